@@ -320,6 +320,29 @@ PROPS["C02"] = dict(
     note="Bounded template; reference verifExpected is trusted. The non-normalized check comparison (checksSimilarDiff) is legacy and not used by the CLI.",
 )
 
+PROPS["C05"] = dict(
+    _lt,
+    runs={
+        "quick": [dict(harness="VerifHarness_C05_quick", reach=["alter", "rebuild", "ifnull"])],
+        "thorough": [dict(harness="VerifHarness_C05_thorough", reach=["alter", "rebuild", "ifnull"])],
+    },
+    bounds={
+        "quick": "new table of 2 columns, each unchanged / added / modified (ChangeKind = symbolic integer 1..255) / renamed / generated, NULL-ability symbolic, "
+                 "default present or not; optionally a dropped old column and an added index",
+        "thorough": "same with 3 columns",
+    },
+    assumptions=[
+        "environment contract: SQLite pairs INSERT INTO t(c1..cn) SELECT e1..en positionally; ALTER TABLE ADD/RENAME COLUMN and index DDL keep rows",
+        "column names are plain identifiers (quoting is C07)",
+    ],
+    outside="execution on a real SQLite engine with data (values, affinity conversions); MySQL / PostgreSQL in-place ALTER semantics; tables not in the change set",
+    claim="For every change descriptor within the bounds, the real SQLite planner (modifyTable / copyRows / alterable / alterTable) either alters in "
+          "place exactly when every change is expressible by ALTER (and then never rebuilds), or rebuilds with create-new, copy, drop-old, rename in that "
+          "order, copying exactly the surviving non-generated columns, each from itself or its old name (NULL-defaulting only for a column that became "
+          "NOT NULL with a default). Code-level core of C05 only.",
+    note="Bounded; the statement-shape parser in the harness is trusted. The data-level half of C05 needs a real engine and is outside the claim.",
+)
+
 NOT_APPLICABLE = {
     "C01": "needs a real SQLite engine executing the planned SQL and pragma-based inspection; neither cgo code nor SQLite's DDL "
            "semantics can be encoded by an SSA-level symbolic executor, and a hand-written catalogue model would verify the model, not Atlas "
